@@ -217,30 +217,50 @@ def lemma_HoldAll():
     return _prove("lemma.HoldAll (snoc, nil, concat, HoldUpTo.all)", parts, exclude=ex)
 
 
-def lemma_SumCong():
-    """SumIV(tl, s, n) != SumEta(kl, s, n)  ==>  some position k < n has iv(tl[k], s) != asg(s, eta_<kl[k]>).
-    The axiom names the position by a witness function; it is proved in the existential form
+def lemma_SumCong(tag):
+    """SumIV(tl, s, n) != Sum<tag>(kl, s, n)  ==>  some position k < n has iv(tl[k], s) != asg(s, Name(kl[k])).
+    The axiom names the position by a witness function; it is proved in the equivalent form
     (forall k < n: equal summands) ==> equal sums, by induction on n with the summand hypothesis
     instantiated at the last position."""
-    from contracts import c_cinf as CC
     from pyvc import iterm as IT
+    from pyvc.logic import Forall
 
+    S, NameFn = IT.NAMED_SUMS[tag]
     tl = z3.Const("tl_sc", IT.LITerm.sort)
     kl = z3.Const("kl_sc", LInt.sort)
     s = z3.Const("s_sc", IT.Asg)
     n, k = z3.Ints("n_sc k_sc")
-    from pyvc.logic import Forall
-
-    summands = lambda m: Forall([k], [IT.LITerm.at(tl, k)], z3.Implies(z3.And(0 <= k, k < m), IT.iv(IT.LITerm.at(tl, k), s) == IT.asg(s, CC.EtaName(LInt.at(kl, k)))), "sc.summands")
-    claim = lambda m: IT.SumIV(tl, s, m) == CC.SumEta(kl, s, m)
+    summands = lambda m: Forall([k], [IT.LITerm.at(tl, k)], z3.Implies(z3.And(0 <= k, k < m), IT.iv(IT.LITerm.at(tl, k), s) == IT.asg(s, NameFn(LInt.at(kl, k)))), "sc.summands")
+    claim = lambda m: IT.SumIV(tl, s, m) == S(kl, s, m)
     return _prove(
-        "lemma.SumCong",
+        f"lemma.SumCong.{tag}",
         [
             ("base n<=0", [n <= 0], claim(n), []),
             ("step", [n >= 0, summands(n + 1), claim(n)], claim(n + 1), [IT.LITerm.at(tl, n)]),
         ],
-        exclude=["lemma.SumCong"],
+        exclude=[f"lemma.SumCong.{tag}"],
     )
+
+
+def lemma_SumIV_concat():
+    from pyvc import iterm as IT
+
+    LT = IT.LITerm
+    a, b = z3.Consts("a_sic b_sic", LT.sort)
+    s = z3.Const("s_sic", IT.Asg)
+    n = z3.Int("n_sic")
+    cc = LT.concat(a, b)
+    ex = ["lemma.SumIV.concat"]
+    c0 = lambda m: z3.Implies(m <= LT.len(a), IT.SumIV(cc, s, m) == IT.SumIV(a, s, m))
+    r1 = _prove("lemma.SumIV.concat.prefix", [("base", [n <= 0], c0(n), []), ("step", [n >= 0, c0(n)], c0(n + 1), [LT.at(cc, n)])], exclude=ex)
+    c1 = lambda m: z3.Implies(z3.And(0 <= m, m <= LT.len(b)), IT.SumIV(cc, s, LT.len(a) + m) == IT.SumIV(a, s, LT.len(a)) + IT.SumIV(b, s, m))
+    r2 = _prove(
+        "lemma.SumIV.concat.suffix",
+        [("base", [n == 0, c0(LT.len(a))], c1(n), []), ("step", [n >= 0, c1(n)], c1(n + 1), [LT.at(cc, LT.len(a) + n)])],
+        exclude=ex,
+    )
+    st = "proved" if r1["status"] == r2["status"] == "proved" else ("failed" if "failed" in (r1["status"], r2["status"]) else "undecided")
+    return {"name": "lemma.SumIV.concat", "status": st, "parts": r1["parts"] + r2["parts"], "seconds": r1["seconds"] + r2["seconds"]}
 
 
 def lemma_mem_at():
@@ -252,7 +272,10 @@ def lemma_mem_at():
 
 LEMMAS = {
     "HoldAll": lemma_HoldAll,
-    "SumCong": lemma_SumCong,
+    "SumCong.Eta": lambda: lemma_SumCong("Eta"),
+    "SumCong.Gm": lambda: lemma_SumCong("Gm"),
+    "SumCong.Gp": lambda: lemma_SumCong("Gp"),
+    "SumIV.concat": lemma_SumIV_concat,
     "mem.at.Int": lemma_mem_at,
     "RangeList": lemma_RangeList,
     "L2a": lemma_L2a,
